@@ -78,6 +78,7 @@ const std::string &strRef();
 std::string strVal(int n);
 const std::string *strOwned(int n);
 const std::string *strLib();
+const std::string *strFinal(int n);
 int strIn(const std::string &s);
 void strOut(std::string &s, int n);
 void strInout(std::string &s);
